@@ -109,18 +109,26 @@ def lastOr (d : α) : List α → α
   | [x] => x
   | _ :: xs => lastOr d xs
 
+/-- the monotone clamp of deac3eb: a cut parameter below the previous one is replaced by it -/
+def monoClamp (lt : α → α → Bool) : α → List α → List α
+  | _, [] => []
+  | t0, t :: ts =>
+    let t' := if lt t t0 then t0 else t
+    t' :: monoClamp lt t' ts
+
 /-- QuadTo case (path.go:1582-1611); `none` when the oracle supplies too few inverse values -/
 def quadCase (start cp e : Pt α) (o : SegOracle α) (s : SState α) : Option (SState α) :=
   if s.rem.isEmpty then some { s with q := quadTo G cp e s.q }
   else
     let sel := selectCuts O s.T o.dT s.rem
     if sel.1.length != o.inv.length then none else
-    let cut := cutsGen O.sub O.div O.one O.quadL O.quadR (start, cp, e) O.zero o.inv
+    let inv := monoClamp O.lt O.zero o.inv
+    let cut := cutsGen O.sub O.div O.one O.quadL O.quadR (start, cp, e) O.zero inv
     let st := cut.1.foldl (fun (st : SState α) (pc : Pt α × Pt α × Pt α) =>
         let st := { st with q := quadTo G pc.2.1 pc.2.2 st.q }
         let st := st.push
         { st with q := moveTo pc.2.2 st.q }) s
-    let st := if O.eq (lastOr O.zero o.inv) O.one then st
+    let st := if O.eq (lastOr O.zero inv) O.one then st
       else { st with q := quadTo G cut.2.2.1 cut.2.2.2 st.q }
     some { st with rem := sel.2, T := O.add s.T o.dT }
 
@@ -130,12 +138,13 @@ def cubeCase (start c1 c2 e : Pt α) (o : SegOracle α) (s : SState α) : Option
   else
     let sel := selectCuts O s.T o.dT s.rem
     if sel.1.length != o.inv.length then none else
-    let cut := cutsGen O.sub O.div O.one O.cubeL O.cubeR (start, c1, c2, e) O.zero o.inv
+    let inv := monoClamp O.lt O.zero o.inv
+    let cut := cutsGen O.sub O.div O.one O.cubeL O.cubeR (start, c1, c2, e) O.zero inv
     let st := cut.1.foldl (fun (st : SState α) (pc : Pt α × Pt α × Pt α × Pt α) =>
         let st := { st with q := cubeTo G pc.2.1 pc.2.2.1 pc.2.2.2 st.q }
         let st := st.push
         { st with q := moveTo pc.2.2.2 st.q }) s
-    let st := if O.eq (lastOr O.zero o.inv) O.one then st
+    let st := if O.eq (lastOr O.zero inv) O.one then st
       else { st with q := cubeTo G cut.2.2.1 cut.2.2.2.1 cut.2.2.2.2 st.q }
     some { st with rem := sel.2, T := O.add s.T o.dT }
 
